@@ -34,7 +34,7 @@ def case(draw, tier):
     maxrows = 7 if tier == "quick" else 16
     nf = draw(st.sampled_from([2, 3, 1]))
     hdr = ["k", "j", "a"][:nf]
-    p = draw(gen.pool(CELL, 2, 3))
+    p = draw(gen.twinned_pool(CELL, 2, 3))
     cell = st.sampled_from(p)
     tbl = draw(gen.table(hdr, [cell] * nf, max_rows=maxrows))
     op = draw(st.sampled_from(OPS))
